@@ -627,6 +627,11 @@ int dns_decode(char *buf, size_t buflen, struct query *q, qr_t qr, char *packet,
 		memset(name, 0, sizeof(name));
 		readname(packet, packetlen, &data, name, sizeof(name) - 1);
 		name[sizeof(name)-1] = '\0';
+		if (strlen(name) > 253) {
+			/* Longer than any legal name (255 bytes on the wire);
+			   it could not be echoed in a well-formed reply. */
+			return -1;
+		}
 		CHECKLEN(4);
 		readshort(packet, &data, &type);
 		readshort(packet, &data, &class);
